@@ -20,7 +20,7 @@ import OpenFGAVerif.Model.TupleStr
 import OpenFGAVerif.Model.Condition
 
 namespace OpenFGAVerif.Model.Validation
-open OpenFGAVerif.Model.TupleStr
+open OpenFGAVerif.Model.TupleStr (Bytes cColon cHash cAt cStar cSpace wildcard runes isControl indexByte lastIndexByte splitObject buildObject getType splitObjectRelation getRelation toObjectRelationString getObjectRelationAsString toUserParts isValidObject isValidRelation isValidUserID isValidUserset isValidUser isObjectRelation isTypedWildcard isWildcard typedPublicWildcard)
 open OpenFGAVerif.Model.Condition (PVal Ctx TypeRef castContext Res Std getLast)
 
 /-! ### the typesystem, as far as validation reads it -/
